@@ -1,0 +1,88 @@
+//go:build verif
+
+package pubsub
+
+// Verification hook for property C17 (/verif/harness/c17). Add-only, compiled only with
+// `-tags verif`; with the tag off the package is byte-identical to upstream.
+//
+// The harness reaches these through an optional-interface assertion on the value
+// returned by New(), so it needs no exported type:
+//
+//	svc.(interface{ VerifCounts() map[string]int })
+//	svc.(interface{ VerifTagStreams(spaceId, pattern string) int })
+
+// VerifCounts reports the sizes of every piece of interest bookkeeping the engine
+// holds: the serving-side space tries (patterns, refcounts, allocated nodes), the
+// per-stream records, and the client-side local maps.
+func (s *service) VerifCounts() map[string]int {
+	out := map[string]int{
+		"remote_spaces": 0, "remote_patterns": 0, "remote_refs": 0, "remote_nodes": 0,
+		"streams": 0, "stream_spaces": 0, "stream_patterns": 0, "stream_total": 0,
+		"local_sub_spaces": 0, "local_trie_spaces": 0, "local_topic_spaces": 0,
+		"local_patterns": 0, "local_nodes": 0, "local_subs": 0, "local_topic_sum": 0,
+	}
+	s.remoteMu.Lock()
+	out["remote_spaces"] = len(s.remote)
+	for _, si := range s.remote {
+		out["remote_patterns"] += si.trie.Len()
+		nodes, refs := verifCountLevel(si.trie.root)
+		out["remote_nodes"] += nodes
+		out["remote_refs"] += refs
+	}
+	out["streams"] = len(s.streams)
+	for _, strm := range s.streams {
+		out["stream_total"] += strm.total
+		out["stream_spaces"] += len(strm.bySpace)
+		for _, patterns := range strm.bySpace {
+			out["stream_patterns"] += len(patterns)
+		}
+	}
+	s.remoteMu.Unlock()
+
+	s.localMu.Lock()
+	out["local_sub_spaces"] = len(s.localSubs)
+	out["local_trie_spaces"] = len(s.localTrie)
+	out["local_topic_spaces"] = len(s.localTopic)
+	for _, trie := range s.localTrie {
+		out["local_patterns"] += trie.Len()
+		nodes, _ := verifCountLevel(trie.root)
+		out["local_nodes"] += nodes
+	}
+	for _, byPattern := range s.localSubs {
+		for _, subs := range byPattern {
+			out["local_subs"] += len(subs)
+		}
+	}
+	for _, n := range s.localTopic {
+		out["local_topic_sum"] += n
+	}
+	s.localMu.Unlock()
+	return out
+}
+
+func verifCountLevel(l *trieLevel) (nodes, refs int) {
+	if l == nil {
+		return 0, 0
+	}
+	visit := func(n *trieNode) {
+		if n == nil {
+			return
+		}
+		nodes++
+		refs += n.refs
+		cn, cr := verifCountLevel(n.next)
+		nodes += cn
+		refs += cr
+	}
+	for _, n := range l.nodes {
+		visit(n)
+	}
+	visit(l.pwc)
+	visit(l.fwc)
+	return
+}
+
+// VerifTagStreams returns len(pool.Streams(tag)) for the routing tag of (spaceId, pattern).
+func (s *service) VerifTagStreams(spaceId, pattern string) int {
+	return len(s.pool.Streams(interestTag(spaceId, pattern)))
+}
